@@ -27,6 +27,7 @@ import (
 	"fmt"
 	"io"
 	"net/http/httptest"
+	"net/url"
 	"os"
 	"path/filepath"
 	"sort"
@@ -57,7 +58,8 @@ type verifSAView struct {
 type verifSACase struct {
 	SQL     string   `json:"sql"`
 	Hdr     string   `json:"hdr"`
-	Ep      string   `json:"ep"`      // query | estimate | arrow | msgpack
+	Ep      string   `json:"ep"`      // query | estimate | arrow | msgpack | measurement
+	Meas    string   `json:"meas"`    // ep=measurement: GET /api/v1/query/<meas>?database=<hdr>&where=<sql>&order_by=id
 	Allow   []string `json:"allow"`   // databases the RBAC stub allows ("*" = everything)
 	Reads   bool     `json:"reads"`   // measure what DuckDB opens for the executed text
 	Ref     bool     `json:"ref"`     // run the same text on the plain DuckDB with views
@@ -168,6 +170,14 @@ func (l *verifSALog) take() string {
 
 func verifSAExecuted(logs string) *string {
 	for _, line := range strings.Split(logs, "\n") {
+		if strings.Contains(line, "\"Querying measurement\"") {
+			var m map[string]interface{}
+			if json.Unmarshal([]byte(line), &m) == nil {
+				if s, ok := m["sql"].(string); ok {
+					return &s
+				}
+			}
+		}
 		if !strings.Contains(line, "\"Executing query\"") {
 			continue
 		}
@@ -336,7 +346,17 @@ func verifSARun(t *testing.T, in *verifSAIn, outs []verifSAOut) {
 		}
 		r := httptest.NewRequest("POST", path, bytes.NewReader(*req))
 		r.Header.Set("Content-Type", "application/json")
-		if c.Hdr != "" {
+		if c.Ep == "measurement" {
+			q := url.Values{}
+			if c.Hdr != "" {
+				q.Set("database", c.Hdr)
+			}
+			if sqlText != "" {
+				q.Set("where", sqlText)
+			}
+			q.Set("order_by", "id")
+			r = httptest.NewRequest("GET", "/api/v1/query/"+url.PathEscape(c.Meas)+"?"+q.Encode(), nil)
+		} else if c.Hdr != "" {
 			r.Header.Set("x-arc-database", c.Hdr)
 		}
 		resp, err := app.Test(r, -1)
